@@ -80,6 +80,11 @@ class LoopContract:
     def havoc(self, vc, frame, k, seq):
         pass
 
+    def iter_spec(self, vc, frame, seq):
+        """obligations on the iterated collection itself (length, items),
+        checked at loop entry; preferred over the textual `header` match"""
+        return []
+
     def at_break(self, vc, frame, k, seq):
         """obligations checked when the body leaves through `break`."""
         return []
